@@ -58,6 +58,8 @@ type Frame struct {
 	rangeMaps    map[ssa.Value]ssa.Value
 	lastCallee   string
 	lastOrd      int
+	letTypes     map[string]types.Type // Go types of the names bound by "at call ... let"
+	letSorts     map[string]Sort
 }
 
 var frameCounter int
@@ -513,6 +515,7 @@ func (fr *Frame) instr(in ssa.Instruction, st *State, pc Term, b *ssa.BasicBlock
 		}
 		ref := vc.allocRef(st, pc)
 		fr.vals[in] = ref
+		vc.assumeRType(pc, ref, elem)
 		l := vc.refLoc(ref, elem)
 		fr.storeToLoc(st, l, vc.zero(elem))
 	case *ssa.Store:
@@ -604,6 +607,7 @@ func (fr *Frame) instr(in ssa.Instruction, st *State, pc Term, b *ssa.BasicBlock
 		vc.oblige("bounds", "safety", "makeslice", pc, and(le(tZero, ln), le(ln, cp)), "make: 0 <= len <= cap")
 		elem := in.Type().Underlying().(*types.Slice).Elem()
 		base := vc.allocRef(st, pc)
+		vc.assumeRType(pc, base, in.Type())
 		hname := elemHeapName(elem)
 		hs := arraySort(SInt, arraySort(SInt, vc.sortOf(elem)))
 		h := vc.heap(st, hname, hs)
@@ -614,10 +618,12 @@ func (fr *Frame) instr(in ssa.Instruction, st *State, pc Term, b *ssa.BasicBlock
 		fr.makeMap(in, st, pc)
 	case *ssa.MakeChan:
 		fr.vals[in] = vc.allocRef(st, pc)
+		vc.assumeRType(pc, fr.vals[in], in.Type())
 	case *ssa.MakeClosure:
 		f := in.Fn.(*ssa.Function)
 		fr.closures[in] = &closureInfo{fn: f, bindings: in.Bindings}
 		fr.vals[in] = vc.allocRef(st, pc)
+		vc.assumeRType(pc, fr.vals[in], in.Type())
 	case *ssa.Lookup:
 		fr.lookup(in, st, pc)
 	case *ssa.MapUpdate:
@@ -653,8 +659,10 @@ func (fr *Frame) instr(in ssa.Instruction, st *State, pc Term, b *ssa.BasicBlock
 		// the spawned function's preconditions must hold where it is started
 		fr.goRequires(in, st, pc)
 		vc.warn("%s: go statement: effects of the goroutine are not tracked (heap havoc)", fr.fn.Name())
+		preGo := st.clone()
 		vc.havocAllHeaps(st)
 		fr.havocCaptured(st, pc)
+		fr.goEnsures(in, st, preGo, pc)
 	case *ssa.Send:
 		fr.send(in, st, pc)
 	case *ssa.Select:
@@ -1127,6 +1135,7 @@ func (fr *Frame) convert(in *ssa.Convert, st *State, pc Term) {
 		if sl, ok := to.Underlying().(*types.Slice); ok {
 			if eb, ok := sl.Elem().Underlying().(*types.Basic); ok && eb.Kind() == types.Uint8 {
 				base := vc.allocRef(st, pc)
+				vc.assumeRType(pc, base, to)
 				hname := elemHeapName(sl.Elem())
 				h := vc.heap(st, hname, arraySort(SInt, arraySort(SInt, SInt)))
 				arr := vc.fresh("bytes", arraySort(SInt, SInt))
